@@ -117,7 +117,10 @@ def step_scores(res, time, pp, bnorms=None):
     m_i = None
     fluid = getattr(res, "fluid", None)
     if fluid is not None and type(res).__name__ != "IdealReservoir":
-        m_i = float(np.asarray(fluid.m_i))
+        try:
+            m_i = float(np.asarray(fluid.m_i))
+        except Exception:  # noqa: BLE001  (attribute renamed / hidden by a refactor: the initial level carries it)
+            m_i = float(pp[0, -1])
     variants = [u]
     if m_i is not None:
         variants.insert(0, np.minimum(u, m_i))
